@@ -63,6 +63,66 @@ fn indep_witness(k: &[u64]) -> Option<Vec<usize>> {
     None
 }
 
+/// position record of a real board, read through the public API only
+fn pos_of(b: &Board) -> sp::Pos {
+    let mut p = sp::Pos { pieces: [0; 6], colors: [0; 2], stm: b.side_to_move() as u8, castle: [[8; 2]; 2],
+        ep: b.en_passant().map(|f| f as u8).unwrap_or(8), halfmove: b.halfmove_clock(), fullmove: b.fullmove_number() };
+    for (i, &pc) in Piece::ALL.iter().enumerate() { p.pieces[i] = b.pieces(pc).0; }
+    for (i, &c) in Color::ALL.iter().enumerate() {
+        p.colors[i] = b.colors(c).0;
+        let r = b.castle_rights(c);
+        p.castle[i] = [r.short.map(|f| f as u8).unwrap_or(8), r.long.map(|f| f as u8).unwrap_or(8)];
+    }
+    p
+}
+
+/// O-C06.start: all 960 x 960 start-position pairs build, are accepted positions, have the Chess960
+/// shape (bishops on opposite colours, king between the rooks, rights on both rook files), and their
+/// derived fields equal the definitions
+fn startpos() -> (u64, Option<String>) {
+    let mut cases = 0u64;
+    // per-colour shape facts (960 each)
+    for n in 0..960u32 {
+        let b = match BoardBuilder::chess960_startpos(n).build() { Ok(b) => b, Err(e) => return (cases, Some(format!("n={} build error {:?}", n, e))) };
+        let p = pos_of(&b);
+        for c in 0..2u8 {
+            let back = sp::rank_bb(sp::rel_rank(0, c));
+            let bishops = p.of(c, sp::B);
+            let light = 0x55AA55AA55AA55AAu64;
+            let ok = p.of(c, sp::P) == sp::rank_bb(sp::rel_rank(1, c))
+                && (p.colors[c as usize] & !sp::rank_bb(sp::rel_rank(1, c))) & !back == 0
+                && bishops.count_ones() == 2 && (bishops & light).count_ones() == 1
+                && p.of(c, sp::N).count_ones() == 2 && p.of(c, sp::R).count_ones() == 2
+                && p.of(c, sp::Q).count_ones() == 1 && p.of(c, sp::K).count_ones() == 1
+                && p.castle[c as usize][0] < 8 && p.castle[c as usize][1] < 8;
+            if !ok { return (cases, Some(format!("n={} colour {} has not the Chess960 shape", n, c))); }
+        }
+        // the classical numbering: 518 is the orthodox array
+        if n == 518 && format!("{}", b) != "rnbqkbnr/pppppppp/8/8/8/8/PPPPPPPP/RNBQKBNR w KQkq - 0 1" {
+            return (cases, Some("n=518 is not the orthodox start position".into()));
+        }
+        cases += 1;
+    }
+    for w in 0..960u32 {
+        for bl in 0..960u32 {
+            let b = match BoardBuilder::double_chess960_startpos(w, bl).build() {
+                Ok(b) => b,
+                Err(e) => return (cases, Some(format!("w={} b={} build error {:?}", w, bl, e))),
+            };
+            let p = pos_of(&b);
+            cases += 1;
+            if !sp::spec_accept(&p) || p.stm != 0 || p.ep != 8 || p.halfmove != 0 || p.fullmove != 1 {
+                return (cases, Some(format!("w={} b={} not an accepted start position", w, bl)));
+            }
+            if b.checkers().0 != sp::spec_checkers(&p, 0) || b.pinned().0 != sp::spec_pinned(&p, 0) {
+                return (cases, Some(format!("w={} b={} derived fields differ from their definition", w, bl)));
+            }
+            if Board::double_chess960_startpos(w, bl) != b { return (cases, Some(format!("w={} b={} constructor mismatch", w, bl))); }
+        }
+    }
+    (cases, None)
+}
+
 fn main() {
     let args: Vec<String> = std::env::args().collect();
     let cmd = args.get(1).map(|s| s.as_str()).unwrap_or("");
@@ -70,6 +130,11 @@ fn main() {
         "sliders" => {
             let (cases, bad) = sliders();
             println!("{{\"cmd\":\"sliders\",\"cases\":{},\"ok\":{},\"witness\":{}}}", cases, bad.is_none(),
+                     match bad { Some(w) => format!("\"{}\"", w), None => "null".into() });
+        }
+        "startpos" => {
+            let (cases, bad) = startpos();
+            println!("{{\"cmd\":\"startpos\",\"cases\":{},\"ok\":{},\"witness\":{}}}", cases, bad.is_none(),
                      match bad { Some(w) => format!("\"{}\"", w), None => "null".into() });
         }
         "keys" => {
